@@ -40,6 +40,8 @@ def run_repair(acc, start, dna_digits, k, vt, indel, heap, log=False, prior=Fals
     kw = dict(has_indel=bool(indel))
     if vt:
         kw["vt_check"] = impl.dna(vt)
+        if (len(s) + start) % 4 == 0:
+            kw["vt_check"] = numpy.str_(kw["vt_check"])          # a check picked from a numpy array of per-strand checks (a str subclass)
     kw["heap_size"] = 1e9 if heap == -1 else heap
     r = impl.call(dsw.repair_dna, s, acc, start, k, _budget=len(s) + 1, _alarm=60, _log=log, **kw)
     o = {"out": cf.outcome(r), "cands": [], "det": 0, "flag": False, "count": 0, "visited": 0, "ticks": r["ticks"], "shape": False,
